@@ -124,7 +124,11 @@ impl CertReloader {
         // from the same bytes (the certificate file used to be read a second time for the
         // information, so a change landing in between made the two disagree).
         let cert_pem = std::fs::read(&self.config.cert_path).map_err(AnyTlsError::Io)?;
+        #[cfg(feature = "verif")]
+        crate::verif::sync_point("reload:between_reads");
         let key_pem = std::fs::read(&self.config.key_path).map_err(AnyTlsError::Io)?;
+        #[cfg(feature = "verif")]
+        crate::verif::sync_point("reload:after_reads");
         let new_config = crate::util::create_server_config_from_pem(&cert_pem, &key_pem)?;
         let new_acceptor = Arc::new(TlsAcceptor::from(new_config));
         #[cfg(feature = "verif")]
